@@ -58,8 +58,9 @@ def eval_structure(S, crys, chem, ops, expected, what):
     u = crys.basis[chem]
     for s in S.states:
         dx = np.dot(crys.lattice, np.asarray(s.R) + u[s.j] - u[s.i])
-        if np.abs(dx - s.dx).max() > 1e-8:
-            bad.append(("dx", "%s: state dx inconsistent with (i,j,R)" % what, {"state": sc.ps_of(s)})); break
+        if np.abs(dx - s.dx).max() > 1e-10 * max(1., float(np.abs(dx).max())):
+            bad.append(("dx", "%s: state dx differs from lattice.(R + u_j - u_i) by %.3g" % (what, np.abs(dx - s.dx).max()),
+                        {"state": sc.ps_of(s), "dx": np.asarray(s.dx).tolist(), "expected": dx.tolist()})); break
     # stars: exact partition of the indices, each a complete orbit
     stars = [list(int(x) for x in st) for st in S.stars]
     if len(sts) == 0:
@@ -116,7 +117,7 @@ def run(ck):
                    "crys.G is the space group (C18); crys.jumpnetwork is complete (C21)"]
     ck.theorems()
     rng = ck.rng
-    ncrys = ck.n(20, 160)
+    ncrys = ck.n(17, 160)
     coq_budget_states = ck.n(30000, 600000)     # total number of states sent to the model
     max_case_states = ck.n(600, 1600)
     defs, runs, meta = [], [], []
@@ -128,7 +129,10 @@ def run(ck):
         d = dict(info); d.update(detail or {})
         ck.violation(msg, d, key="c24-" + key)
 
-    for label, crys, chem in gen.pool(rng, ncrys, random_frac=0.55):
+    # fixed corpus first (several sites per cell on a non-cubic lattice: dx and lattice form must agree), then the pool
+    import itertools
+    corpus = [(nm,) + gen.named(nm) for nm in ("hcp", "honeycomb", "polar")]
+    for label, crys, chem in itertools.chain(corpus, gen.pool(rng, ncrys, random_frac=0.55)):
         try:
             net = gen.percolating_network(crys, chem, rng, maxjumps=ck.n(40, 60))
         except Exception:
@@ -167,6 +171,30 @@ def run(ck):
                 built[(N, origin)] = S
                 for key, msg, detail in bad + bad2:
                     violation(key, msg, info, detail)
+                # the other form of the jump network (dx <-> lattice): same checks, and agreement state by state
+                info2 = dict(info, lattice_form=not lattice_form)
+                try:
+                    S2 = impl_starset(jn, crys, chem, N, origin, not lattice_form)
+                    badf, sts2, stars2 = eval_structure(S2, crys, chem, ops, expected, "generate")
+                    d1 = {sc.ps_of(x): np.asarray(x.dx) for x in S.states}; d2 = {sc.ps_of(x): np.asarray(x.dx) for x in S2.states}
+                    if set(d1) != set(d2):
+                        badf.append(("forms", "dx-form and lattice-form star sets contain different states", {}))
+                    else:
+                        e = max([float(np.abs(d1[k] - d2[k]).max()) for k in d1] + [0.])
+                        if e > 1e-10: badf.append(("forms", "dx of the same state differs between dx-form and lattice-form star sets by %.3g" % e, {}))
+                        if set(frozenset(sts[x] for x in st) for st in stars if st) != set(frozenset(sts2[x] for x in st) for st in stars2 if st):
+                            badf.append(("forms", "dx-form and lattice-form star sets have different stars", {}))
+                    ej = max([float(np.abs(np.asarray(a.dx) - np.asarray(b.dx)).max()) for a, b in zip(S.jumplist, S2.jumplist)] + [0.])
+                    if len(S.jumplist) != len(S2.jumplist) or ej > 1e-10:
+                        badf.append(("forms", "jumplist dx differs between dx-form and lattice-form construction by %.3g" % ej, {}))
+                except sc.GeometryError:
+                    badf = []
+                except Exception as e:
+                    violation("exception", "StarSet raised %s: %s" % (type(e).__name__, e), info2); badf = []
+                for key, msg, detail in badf:
+                    violation(key, msg, info2, detail)
+                ck.case(key=(label, repr(crys), round(cut, 5), N, origin, "gen-otherform"), nontrivial=len(stars) >= 2,
+                        kind="forms:%dD-N%d" % (crys.dim, N))
                 ncase += 1
                 ck.case(key=(label, repr(crys), round(cut, 5), N, origin, "gen"), nontrivial=len(stars) >= 2,
                         kind="gen:%dD-N%d-o%d" % (crys.dim, N, origin),
